@@ -11,6 +11,7 @@ Vocabulary
 * `Spec.oneVarPerPosition tbl`     the property's hypothesis: one variable name per position under a prefix.
 -/
 import GoZero.C09.ProofsServe
+import GoZero.C09.ProofsOrder
 namespace GoZero.C09
 
 open Spec
@@ -184,6 +185,41 @@ theorem dispatch_order_irrelevant {r r' : Router} {tbl : Table} (hrep : Rep r tb
     have hr : rooted p = true := ((dispatch_iff_match ha hok m p).mp ⟨h, ps, hs⟩).1
     rw [preferred_match_is_chosen hb hok hyp hr hpm, hh, hps]
   exact ⟨key hrep hrep', key hrep' hrep⟩
+
+/-- **Reordering the children maps of any nodes** (`Shuffled`: what another Go map iteration order amounts
+to) keeps a tree a representation of the same routes — so the theorems above, stated for all representing
+routers, cover every iteration order — and under the hypothesis the search result is literally the same. -/
+theorem search_same_after_shuffle {tbl : Table} (hok : TblOK tbl) (hyp : oneVarPerPosition tbl = true)
+    {root root' : Node} {m : String} (hs : Shuffled root root') (hrep : TreeRep root tbl m)
+    (toks : List String) (hc : toks = [""] ∨ (toks ≠ [] ∧ ∀ t ∈ toks, t ≠ "")) :
+    TreeRep root' tbl m ∧ next toks root' = next toks root := by
+  have hrep' := treeRep_shuffled hs hrep
+  refine ⟨hrep', ?_⟩
+  obtain ⟨hsome, hnone⟩ := search_table hok hrep toks hc
+  obtain ⟨hsome', hnone'⟩ := search_table hok hrep' toks hc
+  cases h : next toks root with
+  | none =>
+    cases h' : next toks root' with
+    | none => rfl
+    | some x =>
+      obtain ⟨route, hadm, _⟩ := hsome' x.1 x.2 h'
+      have := (mem_admissible.mp hadm).1
+      rw [hnone h] at this; cases this
+  | some x =>
+    obtain ⟨route, hadm, hh, hps⟩ := hsome x.1 x.2 h
+    cases h' : next toks root' with
+    | none =>
+      have := (mem_admissible.mp hadm).1
+      rw [hnone' h'] at this; cases this
+    | some y =>
+      obtain ⟨route', hadm', hh', hps'⟩ := hsome' y.1 y.2 h'
+      have e := admissible_unique hok hyp hadm hadm'
+      subst e
+      congr 1
+      exact Prod.ext (hh'.symm.trans hh) (hps'.trans hps.symm)
+
+example (a b : Node) : Shuffled (.mk none [] [(":x", a), (":y", b)]) (.mk none [] [(":y", b), (":x", a)]) :=
+  .top _ _ _ _ _ (List.Perm.refl _) (List.Perm.swap _ _ _)
 
 /-- **The path variables delivered are exactly the bound segments.**  When the names inside the chosen
 pattern are pairwise distinct, `pathvar.Vars` (the map built by the `addParam` calls) contains exactly the
